@@ -14,12 +14,12 @@ FILE = "hypergraphx/dynamics/randwalk.py"
 _PT = T.Pair(T.INT, T.INT)
 _BT = T.Bag(T.TUP)
 # wsum(B, i, j): sum over the hyperedges of the list B that contain both i and j (i != j) of (size - 1): fold-defined specification function
-WSUM = z3.Function("wsum", _BT.sort(), T.I, T.I, T.I)
+WSUM = z3.Function("pair_wsum", _BT.sort(), T.I, T.I, T.I)
 WSMAT = z3.Function("wsmat", _BT.sort(), z3.ArraySort(_PT.sort(), T.R))      # the table whose cell (i, j) is wsum(B, i, j)
 _b, _x, _i, _j = z3.Const("_wb", _BT.sort()), z3.Const("_wx", T.TupS), z3.Int("_wi"), z3.Int("_wj")
 TH.EXTRA.update({
-    "wsum_empty (definition)": z3.ForAll([_i, _j], WSUM(z3.K(T.TupS, z3.IntVal(0)), _i, _j) == 0, patterns=[WSUM(z3.K(T.TupS, z3.IntVal(0)), _i, _j)]),
-    "wsum_step (definition)": z3.ForAll([_b, _x, _i, _j], WSUM(z3.Store(_b, _x, _b[_x] + 1), _i, _j) == WSUM(_b, _i, _j) +
+    "pair_wsum_empty (definition)": z3.ForAll([_i, _j], WSUM(z3.K(T.TupS, z3.IntVal(0)), _i, _j) == 0, patterns=[WSUM(z3.K(T.TupS, z3.IntVal(0)), _i, _j)]),
+    "pair_wsum_step (definition)": z3.ForAll([_b, _x, _i, _j], WSUM(z3.Store(_b, _x, _b[_x] + 1), _i, _j) == WSUM(_b, _i, _j) +
                                         z3.If(z3.And(TH.tmem(_x, _i), TH.tmem(_x, _j), _i != _j), TH.tlen(_x) - 1, 0),
                                         patterns=[WSUM(z3.Store(_b, _x, _b[_x] + 1), _i, _j)]),
     "wsmat_def (definition)": z3.ForAll([_b, _i, _j], WSMAT(_b)[_PT.mk(_i, _j)] == z3.ToReal(WSUM(_b, _i, _j)), patterns=[WSMAT(_b)[_PT.mk(_i, _j)]]),
